@@ -211,6 +211,34 @@ func c13Check(cs *drv.Case, fields []ref.Field) {
 		fail("write-then-convert", "tree changed at %s", d)
 		return
 	}
+	// a hand-built tree may refer to one element slice from several places (two equal structs built from one field
+	// slice): it is well-typed and acyclic, and is written like the tree in which the slices are separate copies
+	deepest := 0
+	for i := range fields {
+		if n := fields[i].V.Nesting(); n > deepest {
+			deepest = n
+		}
+	}
+	if len(wire) <= 4096 && deepest <= 50 {
+		shared := []uf.UnknownField{{ID: 9, Type: thrift.LIST, ValType: thrift.STRUCT, Value: []uf.UnknownField{
+			{ID: 0, Type: thrift.STRUCT, Value: want}, {ID: 1, Type: thrift.STRUCT, Value: want}}},
+			{ID: 10, Type: thrift.STRUCT, Value: want}}
+		one := append(append([]byte(nil), wire...), 0)
+		exp := ref.EncListBegin(ref.EncFieldBegin(nil, ref.LIST, 9), ref.STRUCT, 2)
+		exp = append(append(exp, one...), one...)
+		exp = append(ref.EncFieldBegin(exp, ref.STRUCT, 10), one...)
+		l3, err := uf.UnknownFieldsLength(shared)
+		if err != nil || l3 != len(exp) {
+			fail("unknown-fields-length", "tree that refers to one element slice three times: UnknownFieldsLength = (%d, %v), encoded bytes: %d", l3, err, len(exp))
+			return
+		}
+		out3 := dirty(len(exp))
+		if n3, err := uf.WriteUnknownFields(out3, shared); err != nil || n3 != len(exp) || !bytes.Equal(out3, exp) {
+			fail("write-bytes", "tree that refers to one element slice three times: WriteUnknownFields = (%d, %v); bytes equal: %v (first diff at %d)", n3, err, bytes.Equal(out3, exp), firstDiff(out3, exp))
+			return
+		}
+		cs.C.Obs("trees with shared element slices written", 1)
+	}
 	cs.C.Obs("field sequences round-tripped", 1)
 	cs.C.Obs("bytes compared", int64(len(wire)))
 }
